@@ -18,7 +18,8 @@ Env(k, dflt) == IF k \in DOMAIN IOEnv THEN IOEnv[k] ELSE dflt
 GMode   == Env("C06_MODE", "bfs")
 GVer    == atoi(Env("C06_VER", "1"))
 GLF     == Env("C06_LF", "1") = "1"
-GAT     == Env("C06_AT", "0") = "1"
+GAT     == Env("C06_AT", "0") # "0"            \* 1: (attributes) with CRC32 only, 2: CRC32 + MD5 + FILETIME
+GATFull == Env("C06_AT", "0") = "2"
 GSlack  == atoi(Env("C06_SLACK", "31"))
 GMinLen == atoi(Env("C06_MINLEN", "1"))
 GMaxLen == atoi(Env("C06_MAXLEN", "3"))
@@ -27,8 +28,25 @@ GInit   == atoi(Env("C06_INIT", "1"))           \* how many of them are in the s
 GEnc    == atoi(Env("C06_ENC", "0"))            \* 0: no encryption, 1: + encrypt, 2: + fix_key
 GSub    == Env("C06_SUB", "0") = "1"            \* the spelling of name "b" is contained in the spelling of name "a"
 GFill   == Env("C06_FILL", "0") = "1"           \* sim: addition-heavy histories (more additions than free slots)
+GLong   == Env("C06_LONG", "0") = "1"           \* name-length class: paths of 220..250 characters ((listfile) above 512 bytes)
 GCls    == Env("C06_CLASS", "c")
+GKinds  == Env("C06_KINDS", "")                 \* sim: directed kind mix ("fl": flush-heavy sessions, "rc": rename chains / compact)
 
+\* near-full table (growth round 4): the builder sizes the hash table to twice the file count (minimum 16), so a table
+\* with few free slots can only be reached THROUGH MutableArchive: a forced prologue of GBallast additions (names z1.., homes
+\* chosen so that they fill slots 1 and 3..14 around pad (7) and the listfile (9)) precedes the enumerated calls; with a on the last
+\* slot, 2 slots (0 and 2) stay free for b, d (home 15: wrapped chain) and c (home 0) - the regime of the 4-slot model of
+\* MC_MpqHashTable (refusals for lack of space, Deleted markers on a full table) on the real 16-slot table.
+GBallast == atoi(Env("C06_BALLAST", "0"))
+\* canonical forms (exhaustive classes): histories that differ only by a call that cannot matter are enumerated once
+\*  - a call the model predicts to FAIL changes nothing: it is only generated as the LAST call of a history (every
+\*    (reachable state, failing call) pair is still replayed, as the end of the history that reaches the state)
+\*  - replace_existing is irrelevant for an absent name: only TRUE is generated there
+\*  - b and d are interchangeable (same home slot, both absent at the start): d is only used after b has been
+GCanon   == Env("C06_CANON", "0") = "1"
+BalNames == <<"z1", "z2", "z3", "z4", "z5", "z6", "z7", "z8", "z9", "z10", "z11">>
+BalHome  == << 3,    4,    5,    6,    8,    10,   11,   12,   13,   14,    1>>
+BalSet   == {BalNames[j] : j \in 1..GBallast}
 GH == 16
 \* op names with chosen home slots: clusters that collide, one cluster on the home slot of (listfile)
 \* (9) and one next to (attributes) (14); a, b, d (and h, i) live on the LAST slot (15) and c on slot 0, so
@@ -37,11 +55,12 @@ AllNames == <<"a", "b", "c", "d", "e", "f", "g", "h", "i", "j", "k", "l", "m", "
 HomeSeq  == << 15,  15,  0,   15,  9,   9,   14,  15,  15,  0,   0,   1,   8,   8,   12,  3,   4,   10>>
 OpNames  == {AllNames[j] : j \in 1..GNames}
 PadHome  == 7
-GUNames  == OpNames \cup {"pad"}
+GUNames  == OpNames \cup {"pad"} \cup BalSet
 GHome    == [x \in GUNames \cup {LF, AT} |->
                IF x = LF THEN 59481 % GH            \* low half of HashString("(listfile)", TABLE_OFFSET) (MC_MpqCrypto V1)
                ELSE IF x = AT THEN 44494 % GH       \* low half of HashString("(attributes)", TABLE_OFFSET)
                ELSE IF x = "pad" THEN PadHome
+               ELSE IF x \in BalSet THEN BalHome[CHOOSE j \in 1..GBallast : BalNames[j] = x]
                ELSE HomeSeq[CHOOSE j \in 1..GNames : AllNames[j] = x]]
 GSubOf   == [x \in GUNames |-> IF GSub /\ x = "b" /\ "a" \in OpNames THEN {"a"} ELSE {}]
 GInitSeq == [j \in 1..GInit |-> AllNames[j]] \o <<"pad">>
@@ -55,7 +74,7 @@ VARIABLES hist,      \* the calls so far: [op, n, m, rep, comp, enc]
           gdone
 gvars == <<hslots, hblocks, hcursor, ddisk, wopen, wdirty, vlf, stale, staleMap, pc, opr, pidx, pcnt, hsnap, lastres, devs, vcalls, hist, gkind, gres, gsr, gpreds, gdone>>
 
-OpRec(o, n, m, rep, comp, enc) == [op |-> o, n |-> n, m |-> m, rep |-> rep, comp |-> comp, enc |-> enc, big |-> FALSE, tok |-> ""]
+OpRec(o, n, m, rep, comp, enc) == [op |-> o, n |-> n, m |-> m, rep |-> rep, comp |-> comp, enc |-> enc, big |-> FALSE, tok |-> "", sp |-> 0, spm |-> 0]
 \* content VALUES: an add stores a fresh content or one this name held before (at the start, or by an earlier add): the
 \* history v1 -> v2 -> v1 must end with v1 whatever the storage class of the copies
 PrevToks(n) == {hist[j].tok : j \in {i \in 1..Len(hist) : hist[i].op = "add" /\ hist[i].n = n}}
@@ -63,19 +82,33 @@ PrevToks(n) == {hist[j].tok : j \in {i \in 1..Len(hist) : hist[i].op = "add" /\ 
 \* sim mode: an add may store a content larger than one sector
 BigChoice == IF GMode = "sim" THEN BOOLEAN ELSE {FALSE}
 Tok(k) == "o" \o ToString(k)
+\* content CLASS "empty" (growth round 4): the content of length 0 is a value of its own (EmptyTok); random walks may store
+\* it with any add, the exhaustive classes store it with every fourth call; starting files can be empty too (initcls 7, 8)
+FreshToks(k) == IF GMode = "sim" THEN {Tok(k), EmptyTok} ELSE {IF k % 4 = 3 THEN EmptyTok ELSE Tok(k)}
 CompOf(k, n) == IF (k + Len(n)) % 2 = 0 THEN "zlib" ELSE "none"
 Encs == CASE GEnc = 0 -> {"none"} [] GEnc = 1 -> {"none", "enc"} [] OTHER -> {"none", "enc", "fix"}
-Comps(k, n) == IF GMode = "sim" THEN {"zlib", "none"} ELSE {CompOf(k, n)}
+\* compression METHOD of an add: none / zlib / bzip2 (random walks: free; exhaustive classes: by position)
+Comps(k, n) == IF GMode = "sim" THEN {"zlib", "none", "bzip2"} ELSE {CompOf(k, n)}
 K == Len(hist) + 1
+\* SPELLING of the name a call uses (MPQ names are case-insensitive: 0 = the spelling the file was added under at the start,
+\* 1 = upper case): free in the random walks; in the exhaustive classes the second and fifth call use the other spelling
+\* (special-file maintenance compares spellings: MpqMapSpecials)
+SpChoice == IF GMode = "sim" THEN {0, 1} ELSE {IF K % 3 = 2 THEN 1 ELSE 0}
 
 \* fill mode: additions go to names that are not in the archive as long as there are any and the table has a free slot,
 \* so that every fill history reaches a table without Empty slot, is refused there, and goes on with removes / re-adds
 FillOK(n) == ~GFill \/ SessView[n] = None \/ NoFree(hslots) \/ \A x \in OpNames : SessView[x] # None
-GAdd    == \E n \in {x \in OpNames : FillOK(x)}, rep \in BOOLEAN, enc \in Encs, big \in BigChoice : \E comp \in Comps(K, n), c \in {Tok(K)} \cup PrevToks(n) :
-              BeginAdd(n, c, rep, enc, comp, big)
-              /\ hist' = Append(hist, [OpRec("add", n, "", rep, comp, enc) EXCEPT !.big = big, !.tok = c])
-GRemove == \E n \in OpNames : BeginRemove(n) /\ hist' = Append(hist, OpRec("remove", n, "", TRUE, "none", "none"))
-GRename == \E a \in OpNames, b \in OpNames : BeginRename(a, b) /\ hist' = Append(hist, OpRec("rename", a, b, TRUE, "none", "none"))
+InPrologue == Len(hist) < GBallast
+UsedName(x) == \E i \in 1..Len(hist) : hist[i].n = x \/ hist[i].m = x
+CanonName(x) == ~GCanon \/ x # "d" \/ UsedName("b")
+GPro    == /\ InPrologue /\ BeginAdd(BalNames[K], Tok(K), TRUE, "none", CompOf(K, "z"), FALSE)
+           /\ hist' = Append(hist, [OpRec("add", BalNames[K], "", TRUE, CompOf(K, "z"), "none") EXCEPT !.tok = Tok(K)])
+GAdd    == \E n \in {x \in OpNames : FillOK(x) /\ CanonName(x)}, rep \in BOOLEAN, enc \in Encs, big \in BigChoice, sp \in SpChoice : \E comp \in Comps(K, n), c \in FreshToks(K) \cup PrevToks(n) :
+              (GCanon /\ SessView[n] = None => rep) /\ BeginAdd(n, c, rep, enc, comp, big)
+              /\ hist' = Append(hist, [OpRec("add", n, "", rep, comp, enc) EXCEPT !.big = big, !.tok = c, !.sp = sp])
+GRemove == \E n \in OpNames, sp \in SpChoice : BeginRemove(n) /\ hist' = Append(hist, [OpRec("remove", n, "", TRUE, "none", "none") EXCEPT !.sp = sp])
+GRename == \E a \in OpNames, b \in {x \in OpNames : CanonName(x)}, sp \in SpChoice, spm \in SpChoice :
+              BeginRename(a, b) /\ hist' = Append(hist, [OpRec("rename", a, b, TRUE, "none", "none") EXCEPT !.sp = sp, !.spm = spm])
 GFlush  == (FlushClean \/ FlushRelocate) /\ hist' = Append(hist, OpRec("flush", "", "", TRUE, "none", "none"))
 GCompact == (CompactNow \/ CompactRefuseNow) /\ hist' = Append(hist, OpRec("compact", "", "", TRUE, "none", "none"))
 \* reopen = drop the MutableArchive (flush on drop) and open the file again
@@ -85,22 +118,28 @@ PredOf(img) == IF ~img.ok THEN [kind |-> "unopenable"]
 GClose  == (CloseClean \/ CloseRelocate) /\ UNCHANGED hist /\ gpreds' = Append(gpreds, PredOf(ddisk'))
 GReopen == ~wopen /\ Open /\ hist' = (IF vcalls = 0 THEN hist ELSE Append(hist, OpRec("reopen", "", "", TRUE, "none", "none")))
 
-More == Len(hist) < GMaxLen /\ ~gdone /\ pc = "idle"
+LastOk == IF Len(gres) = 0 THEN TRUE ELSE gres[Len(gres)] = "ok"
+More == Len(hist) < GBallast + GMaxLen /\ ~gdone /\ pc = "idle" /\ (GCanon => LastOk)
 \* bfs: any call; sim: first a kind (adds weighted), then its parameters
 Kinds == IF GFill THEN {"add1", "add2", "add3", "add4", "add5", "add6", "add7", "remove", "flush", "reopen"}
+         \* several dirty flushes inside ONE session with additions between them ((attributes) maintenance)
+         ELSE IF GKinds = "fl" THEN {"add1", "add2", "add3", "flush", "flush2", "flush3", "remove", "rename", "reopen"}
+         \* rename chains a -> b -> a over few names, remove + add of the same name across flush / reopen, compact between
+         ELSE IF GKinds = "rc" THEN {"add1", "remove", "rename", "rename2", "rename3", "flush", "compact", "reopen"}
          ELSE {"add1", "add2", "add3", "add4", "remove", "rename", "compact", "flush", "reopen", "reopen2"}
 PickKind == /\ GMode = "sim" /\ More /\ wopen /\ gkind = ""
             /\ gkind' \in Kinds /\ UNCHANGED <<hslots, hblocks, hcursor, ddisk, wopen, wdirty, vlf, stale, staleMap, pc, opr, pidx, pcnt, hsnap, lastres, devs, vcalls, hist, gres, gsr, gpreds, gdone>>
 Allowed(kd) == GMode = "bfs" \/ gkind \in kd
 Call == /\ More /\ (GMode = "bfs" \/ gkind # "") /\ gkind' = "" /\ UNCHANGED gdone
-        /\ \/ Allowed({"add1", "add2", "add3", "add4", "add5", "add6", "add7"}) /\ GAdd /\ UNCHANGED <<gres, gsr, gpreds>>
-           \/ Allowed({"remove"}) /\ GRemove /\ UNCHANGED <<gres, gsr, gpreds>>
-           \/ Allowed({"rename"}) /\ GRename /\ UNCHANGED <<gres, gsr, gpreds>>
-           \/ Allowed({"flush"}) /\ GFlush /\ gres' = Append(gres, "ok") /\ gsr' = Append(gsr, "-") /\ UNCHANGED gpreds
-           \/ Allowed({"compact"}) /\ GCompact /\ gres' = Append(gres, lastres') /\ gsr' = Append(gsr, "-") /\ UNCHANGED gpreds
-           \/ Allowed({"reopen", "reopen2"}) /\ wopen /\ GClose /\ UNCHANGED <<gres, gsr>>
+        /\ \/ GPro /\ UNCHANGED <<gres, gsr, gpreds>>
+           \/ ~InPrologue /\ Allowed({"add1", "add2", "add3", "add4", "add5", "add6", "add7"}) /\ GAdd /\ UNCHANGED <<gres, gsr, gpreds>>
+           \/ ~InPrologue /\ Allowed({"remove"}) /\ GRemove /\ UNCHANGED <<gres, gsr, gpreds>>
+           \/ ~InPrologue /\ Allowed({"rename", "rename2", "rename3"}) /\ GRename /\ UNCHANGED <<gres, gsr, gpreds>>
+           \/ ~InPrologue /\ Allowed({"flush", "flush2", "flush3"}) /\ GFlush /\ gres' = Append(gres, "ok") /\ gsr' = Append(gsr, "-") /\ UNCHANGED gpreds
+           \/ ~InPrologue /\ Allowed({"compact"}) /\ GCompact /\ gres' = Append(gres, lastres') /\ gsr' = Append(gsr, "-") /\ UNCHANGED gpreds
+           \/ ~InPrologue /\ Allowed({"reopen", "reopen2"}) /\ wopen /\ GClose /\ UNCHANGED <<gres, gsr>>
 \* after a close the only thing to do is to open again (or to stop); the first open is implicit
-Reopen == /\ ~gdone /\ pc = "idle" /\ ~wopen /\ ddisk.ok /\ gkind # "final" /\ (vcalls = 0 \/ Len(hist) < GMaxLen)
+Reopen == /\ ~gdone /\ pc = "idle" /\ ~wopen /\ ddisk.ok /\ gkind # "final" /\ (vcalls = 0 \/ Len(hist) < GBallast + GMaxLen)
           /\ GReopen /\ gres' = (IF vcalls = 0 THEN gres ELSE Append(gres, "ok"))
           /\ gsr' = (IF vcalls = 0 THEN gsr ELSE Append(gsr, "-")) /\ UNCHANGED <<gkind, gpreds, gdone>>
 Step == /\ ~gdone /\ ~Hung /\ CodeSteps
@@ -110,18 +149,19 @@ Step == /\ ~gdone /\ ~Hung /\ CodeSteps
                                /\ gsr' = (IF pc' = "idle" THEN Append(gsr, SessionReadDesigned(nm)') ELSE gsr)
         /\ UNCHANGED <<hist, gkind, gpreds, gdone>>
 \* the history is complete: the harness drops the archive (flush on drop) ...
-FinalClose == /\ ~gdone /\ pc = "idle" /\ wopen /\ gkind = "" /\ Len(hist) >= GMinLen /\ (GMode = "bfs" \/ Len(hist) >= GMaxLen)
+FinalClose == /\ ~gdone /\ pc = "idle" /\ wopen /\ gkind = "" /\ Len(hist) >= GBallast + GMinLen /\ (GMode = "bfs" \/ Len(hist) >= GBallast + GMaxLen)
               /\ GClose /\ gkind' = "final" /\ UNCHANGED <<gres, gsr, gdone>>
 
 \* one prediction per close (every reopen, then the final one); a spinning call ends the history
 Preds == IF Hung THEN Append(gpreds, [kind |-> "hang"]) ELSE gpreds
-CaseRec == [cls |-> GCls, ver |-> GVer, lf |-> GLF, at |-> GAT, slack |-> IF GVer >= 3 THEN -1 ELSE GSlack,
-            names |-> [j \in 1..GNames |-> [n |-> AllNames[j], home |-> HomeSeq[j]]], padhome |-> PadHome,
+CaseRec == [cls |-> GCls, ver |-> GVer, lf |-> GLF, at |-> GAT, atfull |-> GATFull, longnames |-> GLong, slack |-> IF GVer >= 3 THEN -1 ELSE GSlack,
+            names |-> [j \in 1..GNames |-> [n |-> AllNames[j], home |-> HomeSeq[j]]] \o [j \in 1..GBallast |-> [n |-> BalNames[j], home |-> BalHome[j]]],
+            padhome |-> PadHome, prologue |-> GBallast,
             init |-> [j \in 1..GInit |-> AllNames[j]], ops |-> hist,
-            \* storage class of each starting file as the BUILDER writes it: 0 small compressed; 1..6 longer than a sector
+            \* storage class of each starting file as the BUILDER writes it: 7 / 8 EMPTY (plain / encrypted); 0 small compressed; 1..6 longer than a sector
             \* (sectored) x {compressible, incompressible} x {plain, encrypted, fix-key}; rotated by TLC over the histories
             initcls |-> [j \in 1..GInit |-> (Len(hist) * 3 + Cardinality({i \in 1..Len(hist) : hist[i].op = "add"}) * 5
-                                             + Cardinality({i \in 1..Len(hist) : hist[i].op = "rename"}) + atoi(Env("VERIF_SEED", "1")) + 2 * j) % 7],
+                                             + Cardinality({i \in 1..Len(hist) : hist[i].op = "rename"}) + atoi(Env("VERIF_SEED", "1")) + 2 * j) % 9],
             sub |-> IF GSub /\ GNames >= 2 THEN <<[n |-> "b", inside |-> "a"]>> ELSE <<>>, devs |-> devs, preds |-> Preds,
             pres |-> IF Hung THEN Append(gres, "hang") ELSE gres, psr |-> gsr]
 \* ... and the case is printed
